@@ -1,9 +1,11 @@
 package checks
 
 import (
+	"bytes"
 	"context"
 	"fmt"
 	"io/fs"
+	"log"
 	goos "os"
 	"reflect"
 	"regexp"
@@ -166,6 +168,12 @@ func osTemplates() []osTemplate {
 		P("builtin.errorf", `return string(errorf("be-%d", 2))`, []string{"be-2"}),
 		// filepath module
 		T("filepath.abs", `return filepath.abs("rel/x.txt")`, []string{"/simroot/work/rel/x.txt"}, []string{"Getwd"}, true),
+		// paths that also exist on the real machine, where they are symbolic links
+		// (/bin -> usr/bin on merged-/usr systems): the simulated machine's /bin
+		// is an ordinary directory and is what must be walked, read and listed
+		T("filepath.walk_dir#real-symlink-name", `os.mkdir_all("/bin"); os.write_file("/bin/simtool", "t"); names := []; filepath.walk_dir("/bin", func(p, d, e) { names.append(p) }); return string(names)`, []string{"\"/bin/simtool\""}, []string{"WalkDir"}, true),
+		T("os.read_dir#real-symlink-name", `os.mkdir_all("/lib"); os.write_file("/lib/simlib", "t"); return string(os.read_dir("/lib").map(func(e) { return e.name }))`, []string{"simlib"}, []string{"ReadDir"}, true),
+		T("os.stat#real-symlink-name", `os.mkdir_all("/sbin"); return string(os.stat("/sbin").is_dir) + ":" + string(os.stat("/sbin").name)`, []string{"true:sbin"}, []string{"Stat"}, true),
 		T("filepath.walk_dir", `names := []; filepath.walk_dir("dir", func(p, d, e) { names.append(p) }); return string(names)`, []string{"dir/b.txt", "dir/sub/c.txt"}, []string{"WalkDir"}, true),
 		P("filepath.base", `return filepath.base("/a/b/c.txt")`, []string{"c.txt"}),
 		P("filepath.clean", `return filepath.clean("/a/../b/./c")`, []string{"/b/c"}),
@@ -255,7 +263,7 @@ func c12Uncovered(ts []osTemplate) []string {
 
 var c12Contexts = []string{"top", "spawn", "go-chan", "clone-call", "module-body", "module-func", "callback", "defer", "vm-reuse", "vm-reuse-spawn", "vm-reuse-call", "vm-reuse-os-kept", "nested-eval", "defer-after-cancel", "after-failed-output"}
 var c12Routes = []string{"WithOS", "ctx", "ctx-layered", "vos"}
-var c12Faults = []string{"none", "fail-first", "fail-all", "relative-cwd"}
+var c12Faults = []string{"none", "fail-first", "fail-all", "relative-cwd", "fail-second"}
 
 // c12Multiplier returns a multiplier coprime to total.
 func c12Multiplier(total int) int {
@@ -470,6 +478,12 @@ func runC12(rc *fw.RunCtx) {
 	goos.Setenv("REALONLY", "only-real")
 	goos.Setenv("HOME", "/home/only-real-home")
 	before := realSnapshot()
+	// the Go standard logger and the process-level standard error are part of
+	// the real machine too
+	var logTrip bytes.Buffer
+	log.SetOutput(&logTrip)
+	log.SetFlags(0)
+	defer log.SetOutput(goos.Stderr)
 
 	sos := simos.New()
 	sos.Errno = []syscall.Errno{syscall.EIO, syscall.ENOSPC, syscall.EACCES, syscall.ENOENT, syscall.EEXIST}[round%5]
@@ -479,6 +493,11 @@ func runC12(rc *fw.RunCtx) {
 		sos.FailAt[1] = true
 	case "fail-all":
 		sos.FailAll = true
+	case "fail-second":
+		// the first failable call succeeds, the one after it fails (a directory
+		// listing that works followed by a failing lstat, an open followed by a
+		// failing read, ...)
+		sos.FailAt[2] = true
 	}
 	src, mods := c12Source(t, ctxName)
 
@@ -509,6 +528,7 @@ func runC12(rc *fw.RunCtx) {
 	decoy.Setenv("SIMONLY", "decoy-only")
 	decoy.Host = "decoy-host"
 	ctx, cancel := context.WithCancel(context.Background())
+	ctxBase := ctx // (before any OS is attached)
 	optsNoOS := append([]risor.Option{}, opts...)
 	switch route {
 	case "WithOS":
@@ -649,7 +669,13 @@ try(func() { os.stderr.write("STALE-F-MARK") }, func(e) { return 0 })
 `
 		s.Go("main", "main", func() {
 			guard(out, func() (object.Object, error) {
-				if _, err := risor.Eval(context.Background(), stale, oopts...); err != nil {
+				// (a sibling context: same server-wide cancellation scope, other tenant)
+				type tenantKey struct{}
+				octx := context.Context(context.Background())
+				if round%2 == 0 {
+					octx = context.WithValue(ctxBase, tenantKey{}, "other")
+				}
+				if _, err := risor.Eval(octx, stale, oopts...); err != nil {
 					return nil, fmt.Errorf("harness: the other tenant's evaluation failed: %w", err)
 				}
 				return risor.Eval(ctx, src, opts...)
@@ -694,6 +720,10 @@ try(func() { os.stderr.write("STALE-F-MARK") }, func(e) { return 0 })
 
 	locus := t.Covers + "/" + ctxName + "/" + route
 	// 4. tripwires first: a disturbed real machine is the clearest sign
+	if logTrip.Len() > 0 {
+		rc.Violate("tripwire/real-stderr/"+t.Covers, "%s: something was written to the process's own standard logger (real standard error): %q", tuple, logTrip.String())
+		return
+	}
 	if before != after {
 		rc.Violate("tripwire/real-machine-changed/"+locus, "%s: the real process state changed:\n before: %s\n after:  %s", tuple, before, after)
 		return
@@ -704,6 +734,14 @@ try(func() { os.stderr.write("STALE-F-MARK") }, func(e) { return 0 })
 	}
 	if foreign := c12ForeignOutput(t, sos.StdoutString()+" "+sos.StderrString()); foreign != "" {
 		rc.Violate("mediation/foreign-output/"+t.Covers, "%s: the simulated terminal received output of another evaluation: %s; stdout %q stderr %q", tuple, foreign, sos.StdoutString(), sos.StderrString())
+		return
+	}
+	if (verdict != sim.Done || !out.Done) && fault == "fail-second" && ctxName == "go-chan" {
+		// An OS error in the middle of a builtin can end in a recovered Go panic
+		// (os.read_dir with a failing lstat does, on the unchanged tree), which
+		// ends the goroutine of a go statement silently; main then waits for a
+		// message that never comes. Nothing about mediation can be observed.
+		rc.Hit("tolerated_goroutine_ended_by_fault_in_go_statement")
 		return
 	}
 	if verdict != sim.Done || !out.Done {
@@ -825,6 +863,13 @@ try(func() { os.stderr.write("STALE-F-MARK") }, func(e) { return 0 })
 			rc.Violate("fault-visibility/succeeded-despite-os-error/"+locus, "%s: the simulated OS failed the call but the script got %q (calls %v)", tuple, res, callStrs)
 			return
 		}
+		if leak := c12Leak(res); leak != "" {
+			rc.Violate("divergence/real-data/"+locus, "%s: result %q carries %s", tuple, res, leak)
+			return
+		}
+	case "fail-second":
+		// no particular outcome is demanded (the template may or may not reach a
+		// second failable call); what must hold are the tripwires above and:
 		if leak := c12Leak(res); leak != "" {
 			rc.Violate("divergence/real-data/"+locus, "%s: result %q carries %s", tuple, res, leak)
 			return
